@@ -6,7 +6,8 @@ Engines (all exhaustive over their stated bounds, oracle = mc.ref.merkleref):
               prove exactly the matched ids in order
   spv-sizes   every block size in a range (+ boundary sizes to 5000 and beyond) x structured match sets
   spv-tamper  every proof of the small trees x every single-bit alteration of hashes / flags / total /
-              header root, dropped / extra / duplicated / swapped hashes
+              header root, dropped / extra / duplicated / swapped hashes (is_valid() True => only block
+              ids proved; altered hash list / root => is_valid() not True)
   header      80-byte header codec, hash, id over field boundary products and a full byte sweep
   compact     bits_to_target vs SetCompact, target_to_bits vs GetCompact
   pow         check_pow vs CheckProofOfWork with real hashes (nonce sweeps on both sides of the target)
@@ -501,7 +502,7 @@ def target_class(t):
     return "regular"
 
 
-FULL_EXPS = [1, 2, 3, 4, 5, 16, 0x1C, 0x1D, 0x1E, 0x1F, 0x20]
+FULL_EXPS = [1, 2, 3, 4, 5, 16, 0x1C, 0x1D, 0x1E, 0x1F, 0x20, 0x21, 0x22]
 
 
 def gen_compact(tier, seed):
@@ -958,7 +959,7 @@ def engines(tier, seed):
             run_compact,
             kind="E1",
             rule="quick: exponents 0..40,0x7f,0x80,0xfe,0xff x ~11 000 structured 24-bit mantissas (each byte swept over 0..255 with the other two over {00,01,7f,80,ff}); "
-            "thorough: ALL 2^24 mantissas (sign bit included) x exponents {1,2,3,4,5,16,0x1c..0x20}, structured set for the other exponents. bits_to_target must be the int of SetCompact "
+            "thorough: ALL 2^24 mantissas (sign bit included) x exponents {1,2,3,4,5,16,0x1c..0x22} (13 x 2^24 compact values), structured set for the other exponents. bits_to_target must be the int of SetCompact "
             "(negative values: refused or magnitude; overflowing: skipped), target_to_bits must equal GetCompact on each consensus target, on its all-ones "
             "full-precision neighbour (thorough sweep: for mantissas whose low byte is 00/80/ff), and on 2^k, 2^k+-1, ffff<<k, 7fffff<<k, 800000<<k, 7f<<k, 80<<k, filler>>(255-k) for every k<256 and 0",
         ),
